@@ -9,6 +9,7 @@ import SkModel.Task
 import SkModel.Result
 import SkModel.Spec.Simple
 import SkModel.Spec.Sequence
+import SkModel.Spec.Gate
 import SkModel.Store
 import SkModel.Seeker
 import SkModel.Spec.Lines
@@ -38,6 +39,8 @@ def optStr (j : Json) : Option String := match j with | .str s => some s | _ => 
 def optJson {α} (f : α → Json) : Option α → Json
   | some a => f a
   | none => .null
+
+def optNat (v : Option Nat) : Json := optJson (fun (n : Nat) => toJson n) v
 
 /-! ### Task -/
 
@@ -179,8 +182,6 @@ partial def c03Exh (L : Nat) : Nat × Nat := Id.run do
 
 /-! ### Store (C15) -/
 
-def optNat (v : Option Nat) : Json := optJson (fun (n : Nat) => toJson n) v
-
 def storeJson (st : Store) : Json :=
   Json.mkObj [("data", Json.arr (st.data.map fun p => Json.arr #[toJson p.1, Json.str p.2]).toArray),
               ("nblocks", toJson st.nblocks)]
@@ -295,10 +296,19 @@ def runSeekCase (j : Json) : Json :=
     | k => Json.mkObj [("_bad", Json.str s!"unknown seek op {k}")]
   Json.mkObj [("outs", Json.arr outs)]
 
+/-- spec layer for C07: per constrained definition, activation line and homogeneity -/
+def specGateCase (j : Json) : Json :=
+  let t := toTaskIn j
+  Json.mkObj ((dedupDefs t.defs []).filterMap fun d =>
+    if d.cons.isEmpty then none else
+    some (toString d.id, Json.mkObj [
+      ("activation", optNat (Spec.activation d.cons t.n)),
+      ("homogeneous", toJson (Spec.homogeneous d.cons t.n))]))
+
 def handle (j : Json) : Json :=
   match strF j "kind" with
   | "task" => Json.mkObj [("model", runTaskCase j), ("specSimple", specSimpleCase j),
-                          ("specSeq", specSeqCase j)]
+                          ("specSeq", specSeqCase j), ("specGate", specGateCase j)]
   | "seek" => Json.mkObj [("model", runSeekCase j)]
   | "store" => Json.mkObj [("model", runStoreCase j)]
   | "c03exh" =>
